@@ -2569,6 +2569,11 @@ class SSHConnection(SSHPacketHandler, asyncio.Protocol):
             return
 
         if begin_auth:
+            # The configuration and authorized keys are about to be
+            # reloaded for this user, so authentication is no longer
+            # begun for whichever user it was begun for before
+            self._auth_begun_username = None
+
             # This method is only in SSHServerConnection
             # pylint: disable=no-member
             await cast(SSHServerConnection, self).reload_config()
